@@ -13,14 +13,17 @@ use ntp_proto::{AlgorithmConfig, KalmanClockController, NtpDuration, Synchroniza
 /// How the correction (f64 seconds) and its conversion to duration units are modelled.
 #[derive(Clone, Copy, PartialEq)]
 enum Conv {
+    /// real `NtpDuration::from_seconds`, arbitrary finite correction; the expected amount is the
+    /// conversion of the same value (what the conversion computes is C32's subject). Thorough
+    /// tier: the solver needs minutes to identify the copies of the conversion circuit.
+    Real,
     /// real `NtpDuration::from_seconds`; the correction is a whole number of seconds (any i32, or
-    /// any i32 times 256, so that both the in-range and the saturating arm are reached). The expected amount is then
-    /// known in integer arithmetic: clamp(s) << 32.
+    /// any i32 times 256, so that both the in-range and the saturating arm are reached). The
+    /// expected amount is then known in integer arithmetic: clamp(s) << 32.
     WholeSeconds,
     /// arbitrary finite correction; `NtpDuration::from_seconds` is replaced by an arbitrary
     /// deterministic function (same input, same output) - the threshold logic must hold for
-    /// whatever amount the conversion yields. (Two bit-blasted copies of the real conversion of an
-    /// arbitrary f64 are not proved equal by the SAT solver within 10 minutes: measured.)
+    /// whatever amount the conversion yields
     Uninterpreted,
 }
 
@@ -39,9 +42,11 @@ pub fn from_seconds_uf(seconds: f64) -> NtpDuration {
 /// (correction in seconds, its value in duration units)
 fn any_correction(conv: Conv) -> (f64, i64) {
     match conv {
+        Conv::Real => {
+            let change = any_finite();
+            (change, tt::dur_raw(NtpDuration::from_seconds(change)))
+        }
         Conv::WholeSeconds => {
-            // any i32 number of seconds, or (far = true) that number times 2^8: beyond +-2^31 s
-            // the conversion saturates
             let s32: i32 = kani::any();
             let far: bool = kani::any();
             let s: i64 = if far { (s32 as i64) << 8 } else { s32 as i64 };
@@ -69,19 +74,13 @@ fn any_correction(conv: Conv) -> (f64, i64) {
 }
 
 /// One call of `steer_offset` in the step branch from an arbitrary pre-state.
-/// `defect`: true = only the region of the known `NtpDuration::abs(i64::MIN)` defect,
-/// false = everything else.
-fn step_body(conv: Conv, defect: bool) {
+fn step_body(conv: Conv) {
     let sc = any_step_cfg();
     let step_threshold: f64 = kani::any();
     let freq_delta = any_finite();
     let (change, d_want) = any_correction(conv);
     // this harness drives the step branch; the slew branch is c01_slew_no_step / C02
     kani::assume(change.abs() > step_threshold);
-    // region of the known defect: |i64::MIN| is not representable, `NtpDuration::abs` overflows
-    let in_defect_region = !sc.in_startup && d_want == i64::MIN;
-    kani::assume(in_defect_region == defect);
-
     let algo = AlgorithmConfig { step_threshold, ..AlgorithmConfig::default() };
     let mut c = controller(&sc, algo, 0.0, 0.0);
     arm_step_policy(&sc);
@@ -118,13 +117,21 @@ fn step_body(conv: Conv, defect: bool) {
         kani::cover!(STEP_N == 1 && !sc.in_startup && sc.acc_limit.is_some() && sc.acc0 > 0, "step after startup with an accumulated limit");
         kani::cover!(STEP_N == 1 && STEP_D[0] < 0 && sc.single_bwd.is_some() && !sc.in_startup, "backward step under a finite backward threshold");
         kani::cover!(STEP_N == 1 && sc.start_fwd.is_none() && sc.in_startup && STEP_D[0] == i64::MAX, "saturated forward step with infinite threshold");
+        kani::cover!(STEP_N == 1 && !sc.in_startup && STEP_D[0] == i64::MIN, "most negative step after startup (|d| saturates in the accumulated total)");
     }
 }
 
 harness! {
     #[kani::stub(std::process::exit, crate::common::exit_stub)]
     fn c01_step() {
-        step_body(Conv::WholeSeconds, false);
+        step_body(Conv::WholeSeconds);
+    }
+}
+
+harness! {
+    #[kani::stub(std::process::exit, crate::common::exit_stub)]
+    fn c01_step_real() {
+        step_body(Conv::Real);
     }
 }
 
@@ -132,27 +139,15 @@ harness! {
     #[kani::stub(std::process::exit, crate::common::exit_stub)]
     #[kani::stub(ntp_proto::NtpDuration::from_seconds, crate::c01::from_seconds_uf)]
     fn c01_step_any() {
-        step_body(Conv::Uninterpreted, false);
-    }
-}
-
-// Known finding: a correction of -2^31 s or below converts to i64::MIN duration units whose
-// absolute value wraps (release) / overflows (dev) in `check_offset_steer`.
-harness! {
-    #[kani::stub(std::process::exit, crate::common::exit_stub)]
-    fn c01_step_kf_abs_min() {
-        step_body(Conv::WholeSeconds, true);
+        step_body(Conv::Uninterpreted);
     }
 }
 
 /// `check_offset_steer` alone (the threshold decision): it returns only if the step is allowed,
 /// and then the accumulated total has been updated.
-harness! {
-    #[kani::stub(std::process::exit, crate::common::exit_stub)]
-    fn c01_check() {
+fn check_body(conv: Conv) {
         let sc = any_step_cfg();
-        let (change, d_want) = any_correction(Conv::WholeSeconds);
-        kani::assume(!(!sc.in_startup && d_want == i64::MIN));
+        let (change, d_want) = any_correction(conv);
         let mut c = controller(&sc, AlgorithmConfig::default(), 0.0, 0.0);
         arm_step_policy(&sc);
         kh::check_offset_steer(&mut c, change);
@@ -169,6 +164,18 @@ harness! {
             kani::cover!(!sc.in_startup && d_want < 0 && sc.acc_limit == Some(acc), "accumulated total exactly at the limit is accepted");
             kani::cover!(sc.in_startup && sc.start_bwd.is_some() && d_want < 0, "startup backward step accepted");
         }
+    }
+
+harness! {
+    #[kani::stub(std::process::exit, crate::common::exit_stub)]
+    fn c01_check() {
+        check_body(Conv::WholeSeconds);
+    }
+}
+harness! {
+    #[kani::stub(std::process::exit, crate::common::exit_stub)]
+    fn c01_check_real() {
+        check_body(Conv::Real);
     }
 }
 
@@ -216,4 +223,5 @@ harness! {
         kani::cover!(sc.acc_limit.is_some(), "with an accumulated limit");
     }
 }
+
 
